@@ -7,11 +7,46 @@ VERIF = Path(__file__).resolve().parents[2]
 CLAIMED = {
     'C01': dict(
         category='proof',
-        text='Machine definition in Coq (Spec/MachineSpec.v) with universal lemmas; the three engines are tied to it '
-             'by a differential campaign evaluated inside Coq (vm_compute) on generated images.',
+        text='Machine definition in Coq (Spec/MachineSpec.v); Qed-closed refinement theorems C01_featured / C01_fast: the '
+             'transcriptions of _run_featured and _run_fast (Model/EngPy.v) compute exactly the machine definition for every '
+             'width >= 8, image representation, input and step count; the native engine is tied to the definition by the '
+             'differential campaign (and by Model/EngNative.v where its refinement is proved); every campaign case is '
+             'evaluated inside Coq (vm_compute) on the definition and on the engine models.',
         design_ref='DESIGN.md section 4, C01',
-        note='Coq kernel + vm_compute; hand model tied by correspondence; C text and CPython not modelled.',
-        technique='Coq theorems about the machine model + model/implementation correspondence evaluated in Coq'),
+        note='Coq kernel + vm_compute; hand transcriptions tied to the code by per-run correspondence on generated images x '
+             '3 engines; C text, compiler and CPython not modelled; known finding F1 (w=64 top-of-address-space wrap).',
+        technique='Coq refinement proofs (engine models = machine definition) + model/implementation correspondence evaluated in Coq'),
+    'C07': dict(
+        category='proof',
+        text='Every observable (cause, ops, fault address, output, last-ops list, final in-segment words read back through '
+             'DeviceMemory) of the native engine under random storage knobs (flat window sizes, forced paged, measurement '
+             'loop, ring lengths) and of the fast engine is compared inside Coq with the single machine definition, whose '
+             'halting result is proved unique; layout independence is the corollary "all equal the definition".',
+        design_ref='DESIGN.md section 4, C07',
+        note='Universal statement proved for the definition and the Python engines (C01 theorems); for the C storage layouts the '
+             'tie is the correspondence campaign with directed geometry (page edges, window edges, 2^20..2^58, fill-constant '
+             'collisions); known finding F1; F14 fixed.',
+        technique='Coq machine definition + correspondence of the native engine under all storage knobs evaluated in Coq'),
+    'C11': dict(
+        category='proof',
+        text='Index-arithmetic safety is stated on a Gallina model of _fjcore.c with checked array accesses (coq/Model/NativeSafe.v '
+             'when built); ownership of Python objects and host-crash freedom are runtime facts decided dynamically by an '
+             'ASan+UBSan build of the current _fjcore.c driven with adversarial segment tables, knobs and device/API call '
+             'sequences.',
+        design_ref='DESIGN.md section 4, C11',
+        note='partial: the theorem covers the model\'s index arithmetic; reference counts, allocator and CPython C-API behaviour '
+             'are only exercised under sanitizers.',
+        technique='Coq proof of index safety on a checked-array model + sanitizer campaign on the real C code'),
+    'C18': dict(
+        category='proof',
+        text='Qed-closed theorems on the machine with a failing device: a device exception at call k stops the run exactly at '
+             'an op boundary of the failure-free machine (memory, input, ip, op count), and runs that end earlier equal the '
+             'definition; the except ladder is modelled; every IO call index x 4 exception kinds x 3 engines is enumerated per '
+             'generated program and compared in Coq.',
+        design_ref='DESIGN.md section 4, C18',
+        note='partial: asynchronous signal delivery at an arbitrary instruction is a runtime behaviour the model cannot '
+             'exhibit; only device-raised KeyboardInterrupt is enumerated. Known finding F12.',
+        technique='Coq prefix-consistency theorems + complete fault enumeration per program compared in Coq'),
 }
 
 PENDING_REASON = 'check not built yet in this round (planned per DESIGN.md section 4); not claimed until its theorems and correspondence exist'
